@@ -12,6 +12,8 @@
 //     block = partial(S) reward(1) { unnorm(S) norm(S) punnorm(S) pnorm(S) sosa(S*S) } for o = 0..O-1
 //   C05 hist <rep> <exact> S A O | T (A*S*S, a-major) | Ob (A*S*O, a-major) | b0 (S) | n a1 o1 .. an on
 //        | { alpha_t(S) bel_t(S) } for t = 1..n
+//   C05 inplace <fn> <rep> <exact> S O o | T_a | Ob_a | in (S) | out-of-place result (S) | result of the same call with bRet == &in (S)
+//     fn = unnorm | update | partial | punnorm | pnorm  (the five pointer overloads)
 //   C05 overload <component> <what>      (only emitted when two overloads of one helper disagree)
 #include "common/verif.hpp"
 #include <AIToolbox/MDP/Model.hpp>
@@ -283,6 +285,39 @@ static void emitHist(const M & m, const char * rep, const Tables & t, const AI::
     l.emit();
 }
 
+// in-place use of the pointer overloads (output vector == input vector)
+static void inplaceLine(const char * fn, const char * rep, const Tables & t, size_t a, size_t o, bool exact,
+                        const AI::Vector & in, const AI::Vector & out, const AI::Vector & inpl) {
+    Line l; l << "C05" << "inplace" << fn << rep << exact << t.S << t.O << o << "|";
+    for (size_t s = 0; s < t.S; ++s) for (size_t s1 = 0; s1 < t.S; ++s1) l << t.T[s][a][s1];
+    l << "|";
+    for (size_t s1 = 0; s1 < t.S; ++s1) for (size_t oo = 0; oo < t.O; ++oo) l << t.Ob[s1][a][oo];
+    l << "|"; putVec(l, in); l << "|"; putVec(l, out); l << "|"; putVec(l, inpl);
+    l.emit();
+}
+
+template <class M>
+static void emitInPlace(const M & m, const char * rep, const Tables & t, const AI::Vector & b, size_t a, size_t o, bool exact) {
+    const AI::Vector un = PO::updateBeliefUnnormalized(m, b, a, o);
+    const AI::Vector no = PO::updateBelief(m, b, a, o);
+    const AI::Vector pa = PO::updateBeliefPartial(m, b, a);
+    const AI::Vector pun = PO::updateBeliefPartialUnnormalized(m, pa, a, o);
+    const AI::Vector pno = PO::updateBeliefPartialNormalized(m, pa, a, o);
+    AI::Vector x;
+    x = b;  PO::updateBeliefUnnormalized(m, x, a, o, &x);        inplaceLine("unnorm", rep, t, a, o, exact, b, un, x);
+    x = b;  PO::updateBelief(m, x, a, o, &x);                    inplaceLine("update", rep, t, a, o, exact, b, no, x);
+    x = b;  PO::updateBeliefPartial(m, x, a, &x);                inplaceLine("partial", rep, t, a, o, exact, b, pa, x);
+    x = pa; PO::updateBeliefPartialUnnormalized(m, x, a, o, &x); inplaceLine("punnorm", rep, t, a, o, exact, pa, pun, x);
+    x = pa; PO::updateBeliefPartialNormalized(m, x, a, o, &x);   inplaceLine("pnorm", rep, t, a, o, exact, pa, pno, x);
+}
+
+static void emitInPlaceAll(const Models & M, const AI::Vector & b, size_t a, size_t o, bool exact) {
+    emitInPlace(*M.dense, "dense", M.t, b, a, o, exact);
+    emitInPlace(*M.sparse, "sparse", M.t, b, a, o, exact);
+    emitInPlace(M.user, "generic", M.t, b, a, o, exact);
+    emitInPlace(*M.userEigen, "usereigen", M.t, b, a, o, exact);
+}
+
 // ---------------------------------------------------------------- fixed witness / regression cases
 static Tables fixedCycle() {
     // S=3, A=2, O=3, fully asymmetric and deterministic: action 0 moves s -> s+1 (mod 3), action 1 moves s -> s-1;
@@ -317,13 +352,22 @@ static Tables fixedTiger() {
     return t;
 }
 
-static const long kFixed = 3;
+static const long kFixed = 4;
 
 long verif::verif_ncases(const std::string & tier) {
     return kFixed + (tier == "thorough" ? 6000 : 260);
 }
 
 static void runFixed(long idx) {
+    if (idx == 3) {
+        // WITNESS (C05-inplace-generic): asymmetric S=3 model, b = (1/8, 5/8, 1/4), a = 0, o = 0.
+        // Out of place every representation returns (9/128, 0, 11/32); called in place the loop branch returns (9/128, 0, 7/64).
+        Models M(fixedAsym());
+        AI::Vector b(3); b << 0.125, 0.625, 0.25;
+        emitInPlaceAll(M, b, 0, 0, true);
+        emitInPlaceAll(M, b, 0, 1, true);
+        return;
+    }
     Tables t = idx == 0 ? fixedCycle() : idx == 1 ? fixedAsym() : fixedTiger();
     Models M(t);
     // every corner, the uniform-ish interior and a face
@@ -374,6 +418,10 @@ void verif::verif_case(Rng & rng, long idx, const std::string & tier) {
         size_t a = rng.below(A);
         std::printf("#stat belief_%s 1\n", shape == 0 ? "corner" : shape == 1 ? "face" : "interior");
         emitUpd(M, b, a, exact, k == 2);       // the third belief goes through the converted models
+    }
+    {   // the pointer overloads called in place, one (b, a, o) per case
+        AI::Vector b = makeBelief(rng, S, st, (int)rng.below(3));
+        emitInPlaceAll(M, b, rng.below(A), rng.below(O), exact);
     }
     // one short history per representation (exact while the dyadic denominators fit a double: 8 + 3*12 bits)
     AI::Vector b0 = makeBelief(rng, S, st, (int)rng.below(3));
